@@ -849,9 +849,14 @@ func genMsgs(rng *rand.Rand, cfg kcfg, n int, adversarial bool, nearLimit bool) 
 	ntx := 1 + rng.Intn(3)
 	base := 700 + rng.Intn(50)
 	out := make([]kmsg, 0, n)
+	redeliver := rng.Intn(4) == 0
 	for i := 0; i < n; i++ {
 		t := base + rng.Intn(ntx)
 		m := kmsg{Op: ops[rng.Intn(len(ops))], Txn: fmt.Sprint(t), Tbk: fmt.Sprintf("%d-%d", t, 1700000000+t), Table: tables[rng.Intn(len(tables))]}
+		if redeliver && i >= n/2 {
+			// the second half of the batch is a REDELIVERY: same transaction ids, new delivery keys
+			m.Tbk = fmt.Sprintf("%d-%d", t, 1800000000+t)
+		}
 		if rng.Intn(7) == 0 {
 			m.Op = []string{"BEGIN", "COMMIT"}[rng.Intn(2)]
 		}
